@@ -281,6 +281,28 @@ pub fn run(rep: &mut Report) {
             });
         }
     }
+    // interior scan (round 8): evenly spread, unremarkable epoch counts (+-100 centuries in the scale itself) x durations
+    // (uniform and per binade) x 9 scales; integer float seconds of every magnitude; cross-scale differences for all 81 pairs
+    {
+        let nsc: u64 = if deep { 20_000_000 } else { 1_200_000 };
+        rep.bound("interior_scan_points", nsc);
+        let cnt = |k: u64, j: usize| lattice::scan_point(k, j, -100 * NPC, 100 * NPC);
+        let dur = |k: u64| if k % 2 == 0 { lattice::scan_point(k, 1, -100 * NPC, 100 * NPC) } else { lattice::scan_magnitude(k, 2, 0, 70) };
+        sweep(rep, "c04.scan_arith", 36 * (nsc / 8), |i, out| {
+            let k = i / 36;
+            j_arith(((i / 9) % 4) as usize, SCALES[(i % 9) as usize], cnt(k, 0), dur(k), out);
+        });
+        sweep(rep, "c04.scan_ident", 9 * (nsc / 4), |i, out| j_ident(SCALES[(i % 9) as usize], cnt(i / 9, 3), dur(i / 9 + 1), out));
+        sweep(rep, "c04.scan_unit", 36 * (nsc / 16), |i, out| j_unit(((i / 9) % 4) as usize, SCALES[(i % 9) as usize], cnt(i / 36, 4), UNITS[((i / 36) % 9) as usize], out));
+        sweep(rep, "c04.scan_add_f64", 9 * (nsc / 4), |i, out| j_f64(SCALES[(i % 9) as usize], cnt(i / 9, 5), lattice::scan_magnitude(i / 9, 0, 0, 44) as i64, out));
+        let lp = &leap;
+        sweep(rep, "c04.scan_cross", 81 * (nsc / 40), |i, out| {
+            let k = i / 81;
+            let lc = cnt(k, 1);
+            let rc = if k % 2 == 0 { cnt(k, 2) } else { (lc + lattice::scan_magnitude(k, 3, 0, 62)).clamp(-100 * NPC, 100 * NPC) };
+            j_cross(SCALES[(i % 9) as usize], lc, SCALES[((i / 9) % 9) as usize], rc, lp, out)
+        });
+    }
     // order independence: differences of epochs for all 81 scale pairs at two instants, in every order
     {
         let oi: [i128; 2] = [3_692_217_700 * NS_S, 2_000_000_000 * NS_S + 5];
